@@ -737,7 +737,10 @@ def rule_pal_newton(ctx):
 
 
 def run(ctx):
+    from . import edges
+    edges.rule_prototype_names(ctx, 'R11.13')        # Omega and omega arrive in the order the header promises
     from . import pyrules
+    pyrules.rule_none_helpers(ctx, 'R11.14')         # arguments given as 0 are given
     pyrules.rule_thin_wrappers(ctx, 'R11.12')      # anomaly conversions of the Python front end are the C ones
     pyrules.rule_wrapper_state(ctx, 'R18.10')      # particles are built from the live C state, not from values remembered on the Python object
     rule_pal_newton(ctx)
